@@ -17,6 +17,7 @@ tree of `Model/Codegen` (the theorems of Props/C20.lean are this induction, unfo
   operand.  The tie run checks `typedOK` on every dumped tree (`drv_c20 scope`).
 -/
 import ChibiVerif.Lemmas.C20Lemmas
+import ChibiVerif.Lemmas.C20Calls
 
 namespace ChibiVerif.Lemmas.C20
 open ChibiVerif ChibiVerif.Codegen ChibiVerif.Effect ChibiVerif.Asm ChibiVerif.Ast
@@ -35,6 +36,19 @@ def bfOK (env : Env) (lhs : Node) : Bool :=
 def notNull : Node → Bool
   | .null => false
   | _ => true
+
+/-- the callee is not the builtin `alloca` (whose code lowers %rsp by design) -/
+def notAlloca : Node → Bool
+  | .var _ (some v) => v.name != some "alloca"
+  | _ => true
+
+/-- struct/union arguments have at least one byte (outside: known finding C20-empty-struct-arg) -/
+def structArgsOKb : NodeList → Bool
+  | .nil => true
+  | .cons a rest =>
+    (match a.ty? with
+     | some t => !t.isStructOrUnion || decide (1 ≤ t.size)
+     | none => true) && structArgsOKb rest
 
 mutual
 /-- value-producing expression in scope -/
@@ -55,6 +69,8 @@ def covE (env : Env) : Node → Bool
   | .binop i op lhs rhs => covE env lhs && covE env rhs && notNull lhs && binopTyped i op lhs rhs
   | .exch i lhs rhs => covE env lhs && covE env rhs && !isLD lhs.ty? && !isLD rhs.ty? && !isLD i.ty
   | .labelVal i _ _ => !isLD i.ty
+  | .funcall _ lhs _ _ args => covE env lhs && !isLD lhs.ty? && notAlloca lhs && covArgs env args
+      && structArgsOKb args
   | _ => false
 /-- lvalue in scope (`gen_addr`) -/
 def covA (env : Env) : Node → Bool
@@ -64,7 +80,13 @@ def covA (env : Env) : Node → Bool
   | .member _ lhs _ => covA env lhs
   | .vlaPtr _ _ => true
   | .assign _ lhs rhs => covA env lhs && covE env rhs && !isLD rhs.ty? && bfOK env lhs
+  | .funcall i lhs _ _ args => covE env lhs && !isLD lhs.ty? && notAlloca lhs && covArgs env args
+      && structArgsOKb args && !isLD i.ty
   | _ => false
+/-- argument list in scope -/
+def covArgs (env : Env) : NodeList → Bool
+  | .nil => true
+  | .cons a rest => covE env a && covArgs env rest
 end
 
 mutual
@@ -83,6 +105,41 @@ theorem bfX_zero {env : Env} {lhs : Node} (h : bfOK env lhs = true) : bfX env (b
   unfold bfOK at h
   unfold bfX
   split <;> simp_all [xOf]
+
+theorem Sem_isAllocaCall (lhs : Node) : Sem (isAllocaCall lhs) 0 0 0 := by
+  unfold isAllocaCall
+  sem
+
+theorem Ret_isAllocaCall {lhs : Node} (h : notAlloca lhs = true) : Ret (isAllocaCall lhs) (fun b => b = false) := by
+  unfold isAllocaCall
+  cases lhs <;> first | exact Ret_pure rfl | exact Ret_fail _ | skip
+  rename_i i v
+  cases v with
+  | none =>
+    intro s a s' ls hm
+    simp [bind, M.bind, needVar, nullDeref, fail] at hm
+  | some v =>
+    simp only [needVar, M_pure_bind]
+    cases hn : v.name with
+    | none => exact Ret_fail _
+    | some n =>
+      simp only [notAlloca, hn, bne_iff_ne, ne_eq, Option.some.injEq] at h
+      exact Ret_pure (by simpa using h)
+
+theorem genArgs_tys (env : Env) : ∀ l : NodeList, (genArgs env l).map (·.ty) = l.toList.map Node.ty?
+  | .nil => by rw [genArgs]; rfl
+  | .cons a rest => by rw [genArgs]; simp [NodeList.toList, genArgs_tys env rest]
+
+theorem structArgsOK_of_b : ∀ l : NodeList, structArgsOKb l = true → StructArgsOK (l.toList.map Node.ty?)
+  | .nil, _ => by intro t ht; simp [NodeList.toList] at ht
+  | .cons a rest, h => by
+    simp only [structArgsOKb, Bool.and_eq_true] at h
+    intro t ht hst
+    simp only [NodeList.toList, List.map_cons, List.mem_cons] at ht
+    rcases ht with ht | ht
+    · rw [← ht] at h
+      simpa [hst] using h.1
+    · exact structArgsOK_of_b rest h.2 t ht hst
 
 set_option maxHeartbeats 1000000 in
 mutual
@@ -230,9 +287,21 @@ theorem expr_ok (env : Env) : (n : Node) → covE env n = true → Sem (genExpr 
       · exact f2.cast (by omega) (by omega) (by omega)
       · rename_i hk'; exact absurd hk' hk
       · exact f3.cast (by omega) (by omega) (by omega)
+  | .funcall i lhs fty rb args, h => by
+    rw [genExpr]
+    simp only [covE, Bool.and_eq_true, Bool.not_eq_true'] at h
+    obtain ⟨⟨⟨⟨h1, h2⟩, h3⟩, h4⟩, h5⟩ := h
+    have ih := expr_ok env lhs h1
+    rw [xOf_zero h2] at ih
+    have hs : StructArgsOK ((genArgs env args).map (·.ty)) := by
+      rw [genArgs_tys]; exact structArgsOK_of_b args h5
+    have := Sem_funcallArm env i rb (genArgs env args) (Sem_isAllocaCall lhs) (Ret_isAllocaCall h3) ih
+      (args_ok env args h4) hs
+    simp only [ty?_funcall]
+    sem
   | .null, h | .cond .., h | .logand .., h | .logor .., h | .ret .., h | .if_ .., h | .for_ .., h
   | .do_ .., h | .switch_ .., h | .case_ .., h | .block .., h | .goto_ .., h | .gotoExpr .., h
-  | .label .., h | .funcall .., h | .exprStmt .., h | .stmtExpr .., h | .vlaPtr .., h | .asm_ .., h
+  | .label .., h | .exprStmt .., h | .stmtExpr .., h | .vlaPtr .., h | .asm_ .., h
   | .cas .., h => by simp [covE] at h
 theorem addr_ok (env : Env) : (n : Node) → covA env n = true → Sem (genAddr env n) 0 0 0
   | .var i v, _ => by
@@ -266,11 +335,38 @@ theorem addr_ok (env : Env) : (n : Node) → covA env n = true → Sem (genAddr 
     have := Sem_assignArm env i (bitfieldOf lhs) (addr_ok env lhs h1) ih2
     rw [bfX_zero h4] at this
     sem
+  | .funcall i lhs fty rb args, h => by
+    simp only [covA, Bool.and_eq_true, Bool.not_eq_true'] at h
+    obtain ⟨⟨⟨⟨⟨h1, h2⟩, h3⟩, h4⟩, h5⟩, h6⟩ := h
+    have ih := expr_ok env lhs h1
+    rw [xOf_zero h2] at ih
+    have hs : StructArgsOK ((genArgs env args).map (·.ty)) := by
+      rw [genArgs_tys]; exact structArgsOK_of_b args h5
+    have := Sem_funcallArm env i rb (genArgs env args) (Sem_isAllocaCall lhs) (Ret_isAllocaCall h3) ih
+      (args_ok env args h4) hs
+    rw [xOf_zero h6] at this
+    cases rb with
+    | none => rw [genAddr]; exact Sem_fail _
+    | some v => rw [genAddr]; sem
   | .null, h | .nullExpr .., h | .num .., h | .neg .., h | .addr .., h | .binop .., h | .cond .., h
   | .not .., h | .bitnot .., h | .logand .., h | .logor .., h | .ret .., h | .if_ .., h | .for_ .., h
   | .do_ .., h | .switch_ .., h | .case_ .., h | .block .., h | .goto_ .., h | .gotoExpr .., h
-  | .label .., h | .labelVal .., h | .funcall .., h | .exprStmt .., h | .stmtExpr .., h | .cast .., h
+  | .label .., h | .labelVal .., h | .exprStmt .., h | .stmtExpr .., h | .cast .., h
   | .memzero .., h | .asm_ .., h | .cas .., h | .exch .., h => by simp [covA] at h
+theorem args_ok (env : Env) : (l : NodeList) → covArgs env l = true →
+    ∀ a ∈ genArgs env l, Sem a.gen 0 (xOf a.ty) 0
+  | .nil, _ => by
+    rw [genArgs]
+    intro a ha
+    cases ha
+  | .cons n rest, h => by
+    rw [genArgs]
+    simp only [covArgs, Bool.and_eq_true] at h
+    intro a ha
+    simp only [List.mem_cons] at ha
+    rcases ha with rfl | ha
+    · exact expr_ok env n h.1
+    · exact args_ok env rest h.2 a ha
 end
 
 mutual
